@@ -110,11 +110,45 @@ def gen_adt(rng, tier):
     return C.sx(["adtonce", new, ["script"] + script, ["ops"] + ops])
 
 
+CONC = {
+    "once": ["W", "O", "P", "X", "H", "F", "M", "D", "T", "A"],
+    "limit": ["W", "P", "X", "F"],
+    "oplimit": ["O"],
+    "lock": ["W", "O", "P", "X", "H", "F"],
+    "oplaunch": ["O"], "opsignal": ["O"], "opstartgroup": ["O"], "opadd": ["O"],
+    "wlaunch": ["W"], "wsignal": ["W"], "wbackground": ["W"], "pbackground": ["P"], "xbackground": ["X"],
+    "wstartgroup": ["W"],
+}
+BACKGROUND = {"oplaunch", "opsignal", "opstartgroup", "opadd", "wlaunch", "wsignal", "wbackground", "pbackground",
+              "xbackground", "wstartgroup"}
+ONCE_KIND = {"M": "F", "D": "F", "A": "F", "T": "O"}
+
+
+def gen_conc(rng, tier):
+    subject = rng.choice(list(CONC))
+    kind = rng.choice(CONC[subject])
+    n = rng.choice([1, 1, 2, 3, 5])
+    g = rng.choice([1, 2, 2, 3, 4, 4, 8, 16, 32, 64])
+    if subject in ("opstartgroup", "wstartgroup"):
+        n = rng.choice([1, 2, 3, 5, 8])
+        g = rng.choice([1, 2, 3, 8])
+    if subject == "lock" and g > 16:
+        g = 16
+    calm = subject in BACKGROUND
+    k = ONCE_KIND.get(kind, kind)
+    script = [gen_step(rng, k, calm=True) if calm else [x for x in gen_step(rng, k) if x != "c"]
+              for _ in range(rng.randrange(0, 9))]
+    choices = [rng.randrange(0, 16) for _ in range(rng.choice([0, 5, 20, 60]))]
+    return C.sx(["conc", subject, kind, ["n", n], ["callers", g], ["script"] + script, ["choices"] + choices])
+
+
 def gen(rng, tier, open_keys):
     n = 3000 if tier == "quick" else 150000
     out = []
     for _ in range(n):
         out.append(gen_adt(rng, tier) if rng.random() < 0.06 else gen_seq(rng, tier))
+    for _ in range(700 if tier == "quick" else 12000):
+        out.append(gen_conc(rng, tier))
     return out
 
 
@@ -124,6 +158,9 @@ def corpus():
         "(seq P (stack (retry 3) (limit 2)) (script (ret 0 u1) (ret 0 skip) (ret 5) (ret 0 eof) (ret 9)) (ops (call 0) (call 0) (call 0)))",
         "(seq W (stack (limit 0)) (script) (ops (call 0)))",
         "(adtonce (new 1) (script (ret 4) (ret 5)) (ops (called) (resolve) (do 2) (resolve) (called)))",
+        "(conc oplaunch O (n 1) (callers 3) (script) (choices))",
+        "(conc limit P (n 2) (callers 4) (script (ret 1) (ret 2) (ret 3)) (choices 3 1 2 0 0 1 5 2 2))",
+        "(conc once P (n 1) (callers 8) (script (panic u2)) (choices 3 1 2))",
     ]
 
 
@@ -381,6 +418,97 @@ def adt_predicate(t, obs):
     return None
 
 
+def proj(kind, step):
+    """what a function of the kind returns for a script step -> canonical result string"""
+    if step[0] == "panic":
+        return "!" + "+".join(x for x in step[1:] if x != "c")
+    v, atoms = int(step[1]), [x for x in step[2:] if x != "c"]
+    if kind in ("W", "X"):
+        v = 0
+    if kind in ("O", "H"):
+        v, atoms = 0, []
+    if kind == "F":
+        atoms = []
+    return f"{v}/" + "+".join(atoms)
+
+
+def conc_predicate(t, obs):
+    subject, kind = t[1], t[2]
+    n, g = int(t[3][1]), int(t[4][1])
+    script = t[5][1:]
+    if subject == "opadd":
+        n = 1
+    m = re.match(r"^ph=((?:\(\d+,\d+\))*)\|res=([^|]*)\|inv=(\d+)\|maxc=(\d+)(\|stuck=\d+)?$", obs)
+    if not m:
+        return "malformed observation " + obs[:120]
+    phases = [(int(a), int(b)) for a, b in re.findall(r"\((\d+),(\d+)\)", m.group(1))]
+    res = m.group(2).split(",") if m.group(2) else []
+    inv, maxc = int(m.group(3)), int(m.group(4))
+    if m.group(5):
+        return f"{m.group(5)[1:]}: callers never returned although no execution is in progress"
+    if len(res) != g:
+        return f"{g} calls but {len(res)} results"
+    k = ONCE_KIND.get(kind, kind)
+    outcome = lambda j: proj(k, script[j]) if j < len(script) else proj(k, ["ret", "0"])
+    if subject == "once":
+        if inv != 1:
+            return f"Once executed the function {inv} times for {g} concurrent callers"
+        for ret, inside in phases:
+            if inside > 0 and ret > 0:
+                return f"{ret} callers of a Once-wrapped function returned while the execution was still in progress"
+        first = outcome(0)
+        if not first.startswith("!"):
+            want = first if k in ("P", "F") else ("0/" + first.split("/", 1)[1] if k in ("W", "X") else "0/")
+            bad = [r for r in res if r != want]
+            if bad:
+                return f"Once: callers observed {sorted(set(bad))} but the execution returned {want}"
+        return None
+    if subject == "limit":
+        if maxc > 1:
+            return f"limitExec ran {maxc} executions at once"
+        outs = [outcome(j) for j in range(inv)]
+        npan = sum(1 for o in outs if o.startswith("!"))
+        if inv - npan != min(n, g - npan):
+            return f"Limit({n}): {g} calls ({npan} panicking executions) completed {inv - npan} executions"
+        for j, (ret, inside) in enumerate(phases):
+            if inside > 0 and ret != j:
+                return f"Limit({n}): {ret} callers had returned when only {j} executions had ended"
+        completed = [o for o in outs if not o.startswith("!")]
+        want = sorted(outs + ([completed[-1]] * (g - inv) if completed else ["0/"] * (g - inv)))
+        if sorted(res) != want:
+            return f"Limit({n}): callers observed {sorted(res)}, expected the executions' own results and then the last one: {want}"
+        return None
+    if subject == "oplimit":
+        if inv != min(n, g):
+            return f"Operation.Limit({n}) ran the operation {inv} times for {g} calls"
+        return None
+    if subject == "lock":
+        if maxc > 1:
+            return f"Lock ran {maxc} executions at once"
+        if inv != g:
+            return f"Lock: {g} calls, {inv} executions"
+        if sorted(res) != sorted(outcome(j) for j in range(g)):
+            return "Lock: results are not the executions' results"
+        return None
+    # background starters: no waiter may return while an execution is still in progress
+    total = n if subject in ("opstartgroup", "wstartgroup", "opadd") else 1
+    if inv != total:
+        return f"{subject}: {inv} background executions, expected {total}"
+    for ret, inside in phases:
+        if inside > 0 and ret > 0:
+            return (f"{subject}: {ret} waiter(s) had returned while {inside} background execution(s) were still in progress")
+    if subject in ("wlaunch", "wsignal", "wbackground", "pbackground", "xbackground"):
+        e = outcome(0)
+        want = sorted(["0/" + e.split("/", 1)[1]] + ["0/"] * (g - 1))
+        if sorted(res) != want:
+            return f"{subject}: waiters observed {sorted(res)}, expected {want}"
+    if subject == "wstartgroup":
+        atoms = sorted(a for j in range(n) for a in outcome(j).split("/", 1)[1].split("+") if a)
+        if any(r != "0/" + "+".join(atoms) for r in res):
+            return f"Worker.StartGroup: waiters observed {sorted(set(res))}, the workers failed with {atoms}"
+    return None
+
+
 def predicate(line, obs, allow_known=False):
     if obs is None:
         return "no observation"
@@ -391,13 +519,28 @@ def predicate(line, obs, allow_known=False):
         return seq_predicate(t, obs)
     if t[0] == "adtonce":
         return adt_predicate(t, obs)
-    return None
+    if t[0] == "conc":
+        if obs.startswith("NOQUIESCE"):
+            return "the harness could not reach a quiescent point: " + obs[:100]
+        return conc_predicate(t, obs)
+    return "unknown case family"
+
+
+def classify(line, obs, why):
+    t = C.parse_sx(line)
+    if t[0] == "conc":
+        return "conc:" + t[1]
+    if t[0] == "seq":
+        return "seq:" + (why or "").split(":")[0][:40]
+    return t[0]
 
 
 def nontrivial(line, obs):
     t = C.parse_sx(line)
     if t[0] == "seq":
         return len(t[2]) > 1 and sum(1 for o in t[4][1:] if o[0] in ("call", "calld")) >= 2
+    if t[0] == "conc":
+        return int(t[4][1]) >= 2
     return len(t) > 3
 
 
@@ -413,11 +556,23 @@ def features(line, obs):
             f.append("obs:panic")
         if obs and obs.startswith("ctor"):
             f.append("obs:ctor-panic")
+    if t[0] == "conc":
+        f.append("conc:" + t[1] + ":" + t[2])
+        f.append("callers:" + t[4][1])
     return f
 
 
 def shrink(line, fails):
     t = C.parse_sx(line)
+    if t[0] == "conc":
+        best = t
+        for g in (1, 2, 3, 4):
+            cand = t[:4] + [["callers", g]] + t[5:]
+            if g < int(t[4][1]) and fails(C.sx(cand)):
+                best = cand
+                break
+        cand = best[:5] + [["script"]] + [["choices"]]
+        return C.sx(cand) if fails(C.sx(cand)) else C.sx(best)
     if t[0] != "seq":
         return line
     kind, stack, script, ops = t[1], t[2][1:], t[3][1:], t[4][1:]
